@@ -184,14 +184,21 @@ func (l *LuaEnvironment) enableOnlySafeFunctions() {
 // protectModule protects the specified module from being modified by setting a
 // protected metatable with __newindex and __metatable fields.
 func (l *LuaEnvironment) protectModule(tbl *lua.LTable, moduleName string) {
+	// __newindex is only consulted for keys that are absent from a table, so
+	// setting it on the module itself leaves every existing member writable.
+	// Scripts are instead given an empty proxy that reads through to the
+	// module: every assignment, to new and existing members alike, is refused.
+	proxy := l.lState.NewTable()
 	mt := l.lState.NewTable()
-	l.lState.SetMetatable(tbl, mt)
+	l.lState.SetMetatable(proxy, mt)
+	l.lState.SetField(mt, "__index", tbl)
 	l.lState.SetField(mt, "__newindex", l.lState.NewFunction(func(l *lua.LState) int {
 		varName := l.ToString(2)
 		l.RaiseError("attempt to modify read-only table '%s.%s'", moduleName, varName)
 		return 0
 	}))
 	l.lState.SetField(mt, "__metatable", lua.LString("protected"))
+	l.lState.SetGlobal(moduleName, proxy)
 }
 
 // setTimeOut sets the timeout for the Lua state.
